@@ -56,20 +56,21 @@ def logu(rng, lo, hi):
 # ------------------------------------------------------------------------------------------------
 
 def magic_numbers(repo):
-    """Integer literals of gaftools/cli/realign.py (thresholds, buffer sizes, budgets) plus the usual
+    """Integer literals of realign.py and the modules it uses (thresholds, buffer sizes, budgets) plus the usual
     width limits: workload sizes, fault positions and stall lengths are placed around them, because a
     defect that only shows beyond a constant is invisible to small random inputs."""
     import ast
 
     vals = {256}
-    try:
-        tree = ast.parse(open(os.path.join(repo, "gaftools", "cli", "realign.py")).read())
+    for rel in ("gaftools/cli/realign.py", "gaftools/gaf.py", "gaftools/gfa.py", "gaftools/timer.py", "gaftools/cli/__init__.py", "gaftools/__main__.py"):
+        try:
+            tree = ast.parse(open(os.path.join(repo, rel)).read())
+        except (OSError, SyntaxError):
+            continue
         for node in ast.walk(tree):
             if isinstance(node, ast.Constant) and type(node.value) is int and 16 <= node.value <= 10000:
                 vals.add(node.value)
-    except (OSError, SyntaxError):
-        pass
-    return sorted(vals)
+    return sorted(vals)[:8]
 
 
 def gen_pipe(rng, want_small=False):
